@@ -16,6 +16,8 @@ pub struct TreeOpts {
     /// number of free clusters to leave (None = no ballast)
     pub free: Option<usize>,
     pub fsinfo: FsInfo,
+    /// with `free`: leave the *highest* clusters of the volume free instead of two low ones and the last
+    pub free_top: bool,
 }
 
 impl Default for TreeOpts {
@@ -26,6 +28,7 @@ impl Default for TreeOpts {
             root_free_slots: None,
             free: None,
             fsinfo: FsInfo::Correct,
+            free_top: false,
         }
     }
 }
@@ -94,7 +97,9 @@ pub fn populate(mk: &mut Mk, o: &TreeOpts) {
         let last = mk.g.clusters + 1;
         let free_now = mk.free_clusters();
         let mid: Vec<u32> = free_now.iter().cloned().filter(|&c| c >= 20 && c < last).take(2).collect();
-        let keep: Vec<u32> = match f {
+        let keep: Vec<u32> = if o.free_top {
+            (0..f as u32).map(|i| last - i).rev().collect()
+        } else { match f {
             0 => vec![],
             1 => vec![last],
             2 => vec![mid[0], last],
@@ -104,7 +109,7 @@ pub fn populate(mk: &mut Mk, o: &TreeOpts) {
                 v.push(last);
                 v
             }
-        };
+        } };
         mk.ballast(root, &keep);
     }
 }
